@@ -52,12 +52,12 @@ def methodNameOf (n : T) (src : Bytes) : Outcome (Bytes × List Bytes) :=
         | false => .panic "extractMethodName: argument.Child(0) is nil"
   else .ok ([], [])
 
-/-- variable name: the identifier of the last `variable_declarator` (its whole text if it has none) -/
+/-- variable name: the `name` field of the last `variable_declarator` (its whole text if it has none) -/
 def variableNameOf (n : T) (src : Bytes) : Bytes :=
   match (n.children.filter (fun c => c.ty = "variable_declarator")).getLast? with
   | none => []
   | some d =>
-      match (d.children.filter (fun c => c.ty = "identifier")).getLast? with
+      match d.childByField "name" with
       | some i => i.content src
       | none => d.content src
 
@@ -117,9 +117,6 @@ def preimage (l : NodeLit) (n : T) (src file : Bytes) : Outcome Bytes :=
 def shapeOk (n : T) : Bool :=
   if n.ty = "binary_expression" then
     (n.childByField "left").isSome && (n.childByField "right").isSome && (n.childByField "operator").isSome
-  else if n.ty = "method_declaration" then
-    (n.children.filter (fun c => c.ty = "formal_parameters")).all (fun fp =>
-      (fp.namedChildren.filter (fun p => p.ty = "formal_parameter")).all (fun p => (p.child 0).isSome && (p.child 1).isSome))
   else if n.ty = "yield_statement" ∨ n.ty = "assert_statement" then (n.child 1).isSome
   else if n.ty = "class_declaration" then (n.childByField "name").isSome
   else if n.ty = "method_invocation" then
